@@ -459,7 +459,19 @@ impl BRC20ProgEngine {
             });
 
             let tx = evm.ctx().tx().clone();
+            #[cfg(feature = "verif-hooks")]
+            let verif_tx = tx.clone();
             let output = evm.inspect_tx_commit(tx);
+            #[cfg(feature = "verif-hooks")]
+            crate::verif::evm_run(
+                "tx",
+                &verif_tx,
+                &evm.ctx.block,
+                &evm.ctx.cfg,
+                evm.precompiles.op_return_tx_id,
+                evm.precompiles.custom_precompiles.len(),
+                output.as_ref().map_err(|e| e.to_string()),
+            );
 
             core::mem::swap(&mut *db, evm.ctx().db_mut());
 
@@ -775,6 +787,16 @@ impl BRC20ProgEngine {
             });
 
             let output = evm.replay().map(|x| x.result);
+            #[cfg(feature = "verif-hooks")]
+            crate::verif::evm_run(
+                "sim",
+                &evm.ctx.tx.clone(),
+                &evm.ctx.block,
+                &evm.ctx.cfg,
+                evm.precompiles.op_return_tx_id,
+                evm.precompiles.custom_precompiles.len(),
+                output.as_ref().map_err(|e| e.to_string()),
+            );
             core::mem::swap(&mut *db, evm.ctx().db_mut());
 
             output.map_err(|e| e.into())
@@ -847,7 +869,19 @@ impl BRC20ProgEngine {
                     });
                 });
                 let tx = evm.ctx().tx().clone();
+                #[cfg(feature = "verif-hooks")]
+                let verif_tx = tx.clone();
                 let result = evm.transact_one(tx);
+                #[cfg(feature = "verif-hooks")]
+                crate::verif::evm_run(
+                    "simmulti",
+                    &verif_tx,
+                    &evm.ctx.block,
+                    &evm.ctx.cfg,
+                    evm.precompiles.op_return_tx_id,
+                    evm.precompiles.custom_precompiles.len(),
+                    result.as_ref().map_err(|e| e.to_string()),
+                );
                 match result {
                     Ok(output) => outputs.push(output),
                     Err(e) => {
